@@ -5,7 +5,7 @@ import os
 from . import core
 
 HOOK_COMMITS = ["e03d988"]
-FIX_COMMITS = ["7c26a95", "7fa90f0", "f0c087a", "e99193e", "e23743b", "e274f6c", "d53ab7c", "6666d36", "240c26e", "d5ea340", "971abb4", "db7e5b1", "07318ba"]
+FIX_COMMITS = ["7c26a95", "7fa90f0", "f0c087a", "e99193e", "e23743b", "e274f6c", "d53ab7c", "6666d36", "240c26e", "d5ea340", "971abb4", "db7e5b1", "07318ba", "10a5b62"]
 
 BASELINE_OFF = ("cd /repo && GOFLAGS=-mod=mod go test -json -vet=off -count=1 -timeout 25m ./...")
 
@@ -91,6 +91,11 @@ CHECKS = {
             "The protocol that makes the lexer state safe is model-checked exhaustively for 3 parses x 2 addresses; the implementation is then run, built with -race and the verif tag, in waves of 2/8/64/16 goroutines under GOMAXPROCS 1/2/4/16 with random start offsets and forced GC between waves (address reuse), over TLC-generated programs (incl. chained mixins, whose result depends on post-processing order), corpus files and import closures with diamonds. Every concurrent text and JSON digest must equal the first sequential observation of the same source; the global lexer-state map must be empty at every quiescent point; any race-detector report is a violation.",
             "Schedules are sampled, not enumerated; the race detector only sees executed interleavings.",
             "DESIGN.md §6 C07"),
+    "C09": ("model_checking",
+            "Codec.tla (artefact store: compile, encode, decode, JSON validity, re-import, suffix dispatch) model-checked by TLC; attribute strings enumerated by TLC (StringGen.tla) and TLC-generated programs encoded by the real pbutil encoders and the sysl pb command in every encoding, decoded and re-imported; every observation validated by TLC (CodecTrace.tla)",
+            "Every model (a template exercising collectors, mixins, views, events and REST endpoints with each enumerated string at every attribute position; TLC-generated programs whose attribute values are drawn from the enumeration; every .sysl file of the repository) is encoded as pb, JSON and textpb, indented and compact, by the library and (for a sample) by the command line. The bytes are checked for JSON well-formedness, decoded with pbutil.FromPB and compared by digest of the deterministic binary encoding (compact JSON: without locations), and re-imported through a one-line specification whose applications must equal the original's. An OpenAPI document written as JSON must reach the foreign importer under the name api.json exactly as under api.yaml.",
+            "Strings are bounded (length 3 over 9 characters plus key-like shapes); model equality is digest equality; split-apps output is not covered.",
+            "DESIGN.md §6 C09"),
     "C20": ("exploration",
             "Command.tla life cycle model-checked by TLC; the sysl binary built from the working tree run as a subprocess per (model, command, option set) over hand-written untidy models and TLC-generated programs; every run validated by TLC (CommandTrace.tla)",
             "A search over the product space (model shape x command x options) with a trivial judge: each of ~20 command / option sets (pb text/json, validate, sd per endpoint, ints plain/epa/clustered, datamodel direct/project, export swagger yaml/json, proto, spanner, generate-db-scripts and -delta per application) is run on 17 hand-written untidy shapes (dangling call targets and endpoints, call cycles, dangling/cyclic/recursive type references, table references to non-tables, whole types, missing tables and cycles, empty applications, pass-through cycles, case-variant and REST-style calls) and on TLC-generated programs whose calls and references are left dangling. TLC replays start/outcome events through Command.tla: exit 0 with output, or non-zero with a message; 'panic:', 'fatal error:' and timeouts are unexplained. Crash sites are identified by the first repository frame.",
